@@ -46,7 +46,8 @@ const (
 var farFuture = uint64(world.GenesisTime.Add(10 * 365 * 24 * time.Hour).UnixNano())
 
 type Spec struct {
-	Mode     string // inbound | outbound | mixed
+	Prop     string // property the job reports for (default C19; the deposit job also serves C04)
+	Mode     string // inbound | outbound | mixed | deposit
 	MaxOut   int    // outbound transfers per path
 	MaxAdv   int    // 13h time jumps per path
 	w        *world.World
@@ -59,6 +60,9 @@ type Spec struct {
 	reverter common.Address
 	book     map[string]bool // bech32 of bookkeeping (module / escrow) accounts
 	tracked  []named         // ERC-20 holders that are watched
+	// deposit mode: the token is also bridged from eth
+	ethOracles []scen.Oracle
+	ethNonce   uint64
 }
 
 type named struct {
@@ -66,7 +70,9 @@ type named struct {
 	Addr common.Address
 }
 
-func (s *Spec) Name() string { return fmt.Sprintf("c19/%s/out=%d/adv=%d", s.Mode, s.MaxOut, s.MaxAdv) }
+func (s *Spec) Name() string {
+	return fmt.Sprintf("c19/%s/out=%d/adv=%d/%s", s.Mode, s.MaxOut, s.MaxAdv, s.Prop)
+}
 
 func sig(x string) string { return "C19/" + x }
 
@@ -133,6 +139,9 @@ func (s *Spec) Init() *explore.State {
 	for _, p := range s.pairs {
 		aliases = append(aliases, p.VoucherDenom(remoteBase))
 	}
+	if s.Mode == "deposit" {
+		aliases = append(aliases, cctypes.NewBridgeDenom("eth", scen.ExtAddr("eth", "usdt-token")))
+	}
 	w.MustDeliver(ctx, &erc20types.MsgRegisterCoin{Authority: world.GovAuthority(), Metadata: fxtypes.GetCrossChainMetadataManyToOne("USDT Token", "USDT", 6, aliases...)})
 	s.usdt = scen.ERC20Addr(w, ctx, "usdt")
 	w.MustDeliver(ctx, &erc20types.MsgRegisterCoin{Authority: world.GovAuthority(), Metadata: fxtypes.GetCrossChainMetadataManyToOne("TKN Token", "TKN", 18, cctypes.NewBridgeDenom("eth", scen.ExtAddr("eth", "tkn-token")))})
@@ -188,6 +197,12 @@ func (s *Spec) Init() *explore.State {
 				panic("set-up ack failed: " + ar.String())
 			}
 		}
+	}
+	if s.Mode == "deposit" {
+		// the same token is also bridged from eth: one oracle, the token registered by an observed event
+		s.ethOracles = scen.SetupOracles(w, ctx, "eth", []string{"eth-o1"}, []int64{10000})
+		scen.Observe(w, ctx, "eth", s.ethOracles, scen.BridgeTokenClaim("eth", 1, 100, scen.ExtAddr("eth", "usdt-token"), "USDT Token", "USDT", 6, ""))
+		s.ethNonce = 1
 	}
 	if got := scen.BalanceOf(w, ctx, s.usdt, s.u1.Hex()); !got.Equal(sdkmath.NewInt(int64(10 * len(s.pairs)))) {
 		panic("set-up: u1 holds " + got.String() + " usdt")
@@ -708,6 +723,87 @@ func (s *Spec) dupOp(f flight, kind string) explore.Op {
 	}}
 }
 
+func (s *Spec) psig(x string) string {
+	if s.Prop != "" {
+		return s.Prop + "/" + x
+	}
+	return sig(x)
+}
+
+// depositToIBCOp: a deposit observed on eth whose receiver asked for the coins to be sent on through an IBC channel.
+// Whatever happens to the onward transfer, the deposited amount is either on its way in a packet, or with the receiver,
+// or the claim is still waiting to be executed - it is never nowhere.
+func (s *Spec) depositToIBCOp(pi int, amt int64) explore.Op {
+	name := fmt.Sprintf("DepositEthToIBC(ch%d,%d)", pi, amt)
+	return explore.Op{Name: name, Run: func(c *explore.State) {
+		m := c.Model.(*Model)
+		p := s.pairs[pi]
+		k := scen.Keeper(s.w, "eth")
+		n := k.GetLastObservedEventNonce(c.Ctx) + 1
+		target := hex.EncodeToString([]byte("px/" + scen.TransferPort + "/" + p.L))
+		claim := scen.SendToFxClaim("eth", n, 100+n, scen.ExtAddr("eth", "usdt-token"), amt, scen.ExtAddr("eth", "depositor"), s.u2.Acc(), target, "")
+		if r := scen.Vote(s.w, c.Ctx, "eth", s.ethOracles[0], claim); !r.OK() {
+			c.Outcome = "vote-rejected"
+			c.Violate("observed-event-is-processed", s.psig("deposit-claim-vote-failed"), r.String())
+			return
+		}
+		holds := func(ctx sdk.Context) sdkmath.Int {
+			total := scen.BalanceOf(s.w, ctx, s.usdt, s.u2.Hex())
+			for _, coin := range s.w.App.BankKeeper.GetAllBalances(ctx, s.u2.Acc()) {
+				if coin.Denom == "usdt" || strings.HasPrefix(coin.Denom, "ibc/") || strings.HasPrefix(coin.Denom, "eth0x") {
+					total = total.Add(coin.Amount)
+				}
+			}
+			return total
+		}
+		before := holds(c.Ctx)
+		pre := s.w.Dump(c.Ctx)
+		er := s.w.CallABI(c.Ctx, s.rel, cctypes.GetAddress(), cctypes.GetABI(), nil, 3_000_000, "executeClaim", "eth", new(big.Int).SetUint64(n))
+		if er.Panic != nil {
+			c.Outcome = "panic"
+			c.Violate("relay-never-panics", s.psig("deposit-execution-panics"), fmt.Sprintf("%s: %v\n%s", name, er.Panic, er.Stack))
+			return
+		}
+		_, parked := k.GetPendingExecuteClaim(c.Ctx, n)
+		if !er.Success() {
+			c.Outcome = "execution-refused"
+			if d := nonIBCDiff(pre, s.w.Dump(c.Ctx)); len(d) > 0 && er.Kept() {
+				// a failed EVM transaction keeps its fee and nonce only
+				var real []string
+				for _, l := range d {
+					if !strings.HasPrefix(l, "evm/") && !strings.HasPrefix(l, "acc/") && !strings.HasPrefix(l, "feemarket/") {
+						real = append(real, l)
+					}
+				}
+				if len(real) > 0 {
+					c.Violate("refused-execution-leaves-nothing", s.psig("refused-deposit-execution-had-effect"), name+": "+strings.Join(real, "; "))
+				}
+			}
+			if !parked {
+				c.Violate("refused-execution-leaves-nothing", s.psig("refused-deposit-execution-consumed-the-claim"), name)
+			}
+			return
+		}
+		c.Accepted = true
+		gained := holds(c.Ctx).Sub(before)
+		pkt, sent := scen.SentPacket(er.Events)
+		inPacket := sdkmath.ZeroInt()
+		if sent {
+			var d transfertypes.FungibleTokenPacketData
+			if err := transfertypes.ModuleCdc.UnmarshalJSON(pkt.Data, &d); err == nil {
+				inPacket, _ = sdkmath.NewIntFromString(d.Amount)
+			}
+			m.Flights = append(m.Flights, flight{Pair: pi, Seq: pkt.Sequence, Tok: "usdt", Amt: amt, Relation: false, Pkt: pkt})
+			c.Outcome = "forwarded"
+		} else {
+			c.Outcome = "kept-by-receiver"
+		}
+		if !gained.Add(inPacket).Equal(sdkmath.NewInt(amt)) || parked {
+			c.Violate("deposit-is-never-nowhere", s.psig("deposit-neither-forwarded-nor-credited"), fmt.Sprintf("%s executed: receiver's holdings changed by %s, packet carries %s, claim still parked=%v - the observed deposit was %d", name, gained, inPacket, parked, amt))
+		}
+	}}
+}
+
 // ------------------------------------------------------------------ spec
 
 func (s *Spec) Ops(st *explore.State) []explore.Op {
@@ -737,6 +833,14 @@ func (s *Spec) Ops(st *explore.State) []explore.Op {
 		ops = append(ops, s.inboundOp(inbound{0, "usdt", "hex", "none", 0}))
 		ops = append(ops, s.inboundOp(inbound{0, "fxret", "hex", "none", 0}))
 		ops = append(ops, s.inboundOp(inbound{0, "junk", "hex", "none", 0}))
+	}
+	if s.Mode == "deposit" {
+		for pi := range s.pairs {
+			for _, amt := range []int64{2, 50} {
+				ops = append(ops, s.depositToIBCOp(pi, amt))
+			}
+		}
+		return ops
 	}
 	if m.LastIn != nil && s.Mode != "outbound" {
 		ops = append(ops, s.replayInOp())
@@ -842,7 +946,7 @@ func init() {
 	registry.Register(&registry.Check{
 		ID:    "C19",
 		Level: "model_checking",
-		Rule: "explicit-state DFS over two loop-back (09-localhost) transfer channel pairs through the real IBC core handlers (MsgRecvPacket / MsgAcknowledgement / MsgTimeout with real commitment, receipt and acknowledgement bookkeeping) and the fx middleware stack. Inbound alphabet: denom {registered voucher, FX returning from escrow, unregistered} x receiver {hex, bech32} x memo {none, non-JSON, EVM call to a recorder, reverting call, call that tries to move tokens} x remote sender {foreign string, a local account's bech32} + replay of the last packet; oracle: success ack => exactly the amount credited as ERC-20 (FX: natively) to the receiver and no other watched account or user bank balance changes, error ack => every store except the IBC core store is byte-identical, memo call runs once with msg.sender = hash(port/channel, sender) which is no local account. Outbound alphabet: crossChain precompile from u1 {ERC-20 usdt, native FX} x amount {1,2} x channel {0,1}, then AckOK / AckErr / Timeout (after a 13h jump) per packet in flight and duplicates of each for settled packets; oracle: debit exactly the amount, tracking records == EVM-origin ERC-20 packets in flight in every state, refund exactly once in ERC-20 form on error/timeout, nothing on success, duplicates change nothing outside the IBC core store",
+		Rule:  "explicit-state DFS over two loop-back (09-localhost) transfer channel pairs through the real IBC core handlers (MsgRecvPacket / MsgAcknowledgement / MsgTimeout with real commitment, receipt and acknowledgement bookkeeping) and the fx middleware stack. Inbound alphabet: denom {registered voucher, FX returning from escrow, unregistered} x receiver {hex, bech32} x memo {none, non-JSON, EVM call to a recorder, reverting call, call that tries to move tokens} x remote sender {foreign string, a local account's bech32} + replay of the last packet; oracle: success ack => exactly the amount credited as ERC-20 (FX: natively) to the receiver and no other watched account or user bank balance changes, error ack => every store except the IBC core store is byte-identical, memo call runs once with msg.sender = hash(port/channel, sender) which is no local account. Outbound alphabet: crossChain precompile from u1 {ERC-20 usdt, native FX} x amount {1,2} x channel {0,1}, then AckOK / AckErr / Timeout (after a 13h jump) per packet in flight and duplicates of each for settled packets; oracle: debit exactly the amount, tracking records == EVM-origin ERC-20 packets in flight in every state, refund exactly once in ERC-20 form on error/timeout, nothing on success, duplicates change nothing outside the IBC core store",
 		Assumptions: []string{
 			"the remote chain is played by the harness writing the remote end's commitment / acknowledgement; remote behaviour beyond {success ack, error ack, never received} is not modelled",
 			"amounts 1..2 base units, at most 2 packets in flight, at most 3 outbound transfers per path",
@@ -854,12 +958,14 @@ func init() {
 					{Name: "inbound", Spec: &Spec{Mode: "inbound"}, Depth: 3, ShardDepth: 2},
 					{Name: "outbound", Spec: &Spec{Mode: "outbound", MaxOut: 3, MaxAdv: 2}, Depth: 7, ShardDepth: 2},
 					{Name: "mixed", Spec: &Spec{Mode: "mixed", MaxOut: 3, MaxAdv: 1}, Depth: 6, ShardDepth: 2},
+					{Name: "deposit-forwarded-over-ibc", Spec: &Spec{Mode: "deposit"}, Depth: 3, ShardDepth: 1, NoConform: true},
 				}
 			}
 			return []registry.Job{
 				{Name: "inbound", Spec: &Spec{Mode: "inbound"}, Depth: 2, ShardDepth: 1},
 				{Name: "outbound", Spec: &Spec{Mode: "outbound", MaxOut: 2, MaxAdv: 1}, Depth: 5, ShardDepth: 2},
 				{Name: "mixed", Spec: &Spec{Mode: "mixed", MaxOut: 2, MaxAdv: 1}, Depth: 4, ShardDepth: 2},
+				{Name: "deposit-forwarded-over-ibc", Spec: &Spec{Mode: "deposit"}, Depth: 2, ShardDepth: 1, NoConform: true},
 			}
 		},
 	})
